@@ -927,3 +927,71 @@ def fmtcheck_rule(ctx, rep, rid="FMTCHK"):
                           % (b.name, param[2], name, ", ".join(show(a, 80) for a in args)), site(b, pt))
     if n_w == 0:
         rep.violation(rid, "%s|format-write-missing" % b.name, "%s: format mode writes nothing" % b.name, site(b, fpt))
+
+
+# ------------------------------------------------------------------------------------------------
+# L-PREORD: an inherited table is written for a child before the pass descends into that child
+# ------------------------------------------------------------------------------------------------
+PREORDER_PASSES = {
+    "frontend::sema::LL1Validator::calc_follow_regex": ("follow_sets", 7),
+}
+
+
+def _table_keys(e, field):
+    """child expressions X of every `<table>.entry(X.syntax())` / `get_mut(&X.syntax())` on the receiver chain of e"""
+    out = []
+    for x in walk(e):
+        if x[0] == "call" and re.search(r"HashMap(<[^>]*>)?::(entry|get_mut)$", x[1]) and len(x[2]) == 2 \
+                and any(y[0] == "field" and y[2].endswith("SemanticData") and y[3] == field for y in walk(x[2][0])):
+            for k in walk(x[2][1]):
+                if k[0] == "call" and k[1].endswith("AstNode>::syntax") and k[2]:
+                    out.append(k[2][0])
+    return out
+
+
+def _value_id(e):
+    """identity of a value up to the provenance depth limit: the call site that produced it (projections stripped)"""
+    while e[0] in ("field", "variant", "tfield"):
+        e = e[1]
+    if e[0] == "call":
+        return ("call", e[1], e[4])
+    return e
+
+
+def preorder_rule(ctx, rep, rid="PREORD"):
+    rep.rule(rid, "DOM: the follow pass is a top-down pass whose fixpoint flag only watches rule-level sets: in calc_follow_regex every "
+                  "recursive call on a child is dominated by an update (`extend`) of follow_sets[child] for that same child; a descent "
+                  "before the update lets the constructs inside the child read the previous pass's set, and nothing forces another pass")
+    lib = ctx.lelwel()
+    for fname, (field, floor) in PREORDER_PASSES.items():
+        bs = [b for b in user_bodies(lib) if b.name == fname]
+        if len(bs) != 1:
+            raise MissingAnchor("%s not found" % fname)
+        b = bs[0]
+        ups = []
+        recs = []
+        for pt, name, decl, args, t in calls(b):
+            if name.endswith(fname.rsplit("::", 2)[-2] + "::" + fname.rsplit("::", 1)[-1]) or name == fname:
+                child = [a for a in args if a[0] not in ("param",) or a[2] not in ("cst", "sema", "rule_regex", "change")]
+                recs.append((pt, args))
+            elif _TABLE_UPDATE.search(name) and args and _sema_fields(args[0]) == {field}:
+                for k in _table_keys(args[0], field):
+                    ups.append((pt, k))
+        n = 0
+        for pt, args in recs:
+            n += 1
+            cands = [a for a in args if a[0] != "param"]
+            ok = False
+            for upt, k in ups:
+                if any(_value_id(k) == _value_id(c) for c in cands) and (b.dominates(upt[0], pt[0]) and (upt[0] != pt[0] or upt[1] < pt[1])):
+                    ok = True
+            what = show(cands[0], 90) if cands else "?"
+            if ok:
+                rep.ok(rid, "%s: %s[%s] is extended before the descent" % (fname.rsplit("::", 1)[-1], field, what))
+            else:
+                rep.violation(rid, "%s|descent-before-update|%s" % (fname, re.sub(r"[^A-Za-z:]+", "", show(cands[0], 60))[:60] if cands else "?"),
+                              "%s descends into `%s` before %s for that child has been extended on this pass: the constructs nested in the child are "
+                              "computed from the previous pass's set and the fixpoint can stop with them stale" % (fname, what, field), site(b, pt))
+        rep.count("recursive descents in %s" % fname.rsplit("::", 1)[-1], n)
+        if n < floor:
+            rep.violation(rid, "floor:%s" % fname, "%s: only %d recursive descents recognised (%d on the audited tree)" % (fname, n, floor))
